@@ -77,6 +77,8 @@ class PoolWorld(object):
         self.phase = ['run']
         self.hold_handshake = [False]
         self.fail_when_ready = [None]
+        self.use_script = {}            # node address -> [bool, ...]
+        self.use_kills = 0
         self.hold_init_of = [None]      # address of a node whose pool-init connections are stuck in their set-up
         self.held_handshakes = []
         self.direct_events = []
@@ -139,12 +141,19 @@ class PoolWorld(object):
 
     # ------------------------------------------------------------------ node side
     def behaviour(self, node, cstate, req):
-        setup = req['op'] in ('OPTIONS', 'STARTUP') or (req['op'] == 'QUERY' and req['query'].lstrip().upper().startswith('USE '))
+        is_use = req['op'] == 'QUERY' and req['query'].lstrip().upper().startswith('USE ')
+        setup = req['op'] in ('OPTIONS', 'STARTUP') or is_use
         if setup and ((self.hold_handshake[0] and cstate.conn.sim_creator in ('pool-replace', 'pool-grow')) or
                       (self.hold_init_of[0] == node.address and cstate.conn.sim_creator == 'pool-init')):
             r = node.default_reaction(cstate, req)
             self.held_handshakes.append((cstate, req, r))
             return ('silence',)
+        if is_use and cstate.conn.sim_creator == 'pool-init' and self.use_script.get(node.address):
+            # scripted fate of the next USE round trips of connections a pool constructor opens on this node (True = the node drops the connection
+            # instead of answering); bounded, so a pool that is rebuilt gets through in the end
+            if self.use_script[node.address].pop(0):
+                self.use_kills += 1
+                return ('reset',) if self.use_kills % 2 else ('close',)
         if req['op'] == 'STARTUP' and self.fail_when_ready[0] is not None and cstate.conn.sim_creator == 'pool-replace':
             # the node finishes the replacement's handshake and drops the connection being replaced in the same breath
             victim, reset = self.fail_when_ready[0]
